@@ -212,6 +212,36 @@ N_THOROUGH = [10, 20, 40, 80, 160, 320, 500, 1000, 2000]
 # (name, generator, kind, quick parameters, thorough parameters)
 #   kind 'depth': parameter = nesting depth          -> bound, doubling, consecutive
 #   kind 'flat' : parameter = length of a flat list  -> bound, doubling, consecutive, per_char
+def fam_ns_commented(d):
+    """d nested namespaces whose headers carry comments between `namespace`, the name and the brace (each comment
+    costs memo-table entries while the alternatives of a declaration are tried: pressure on a bounded table)"""
+    out = []
+    for i in range(d):
+        out.append('namespace /* begin */ n%d /* level %d */\n// Allman style, documented\n// second line\n{' % (i, i))
+    out.append('class Inner { Inner(); double m(int a) const; };')
+    out.extend('} // namespace' for _ in range(d))
+    return '\n'.join(out) + '\n'
+
+
+def fam_tmpl_qualified(d):
+    """template arguments nested d deep whose names have seven `::` components, in several type positions"""
+    s = 'int'
+    for _ in range(d):
+        s = 'const a::b::c::d::e::f::V<' + s + '>&'
+    core = s[len('const '):-1]
+    return 'typedef %s TQ;\n%s f(%s x);\nclass C { C(%s y); %s v; };\n' % (core, core, s, s, core)
+
+
+def fam_commented_everything(d):
+    """namespaces nested d deep, a comment after every token of the declarations inside"""
+    out = []
+    for i in range(d):
+        out.append('namespace /*a*/ /*b*/ m%d /*c*/ { /*d*/' % i)
+        out.append('class /*x*/ K%d /*y*/ : /*z*/ base::ns::T<m0::K0> /*w*/ { /*v*/ K%d( /*u*/ ) /*t*/ ; /*s*/ } /*r*/ ; /*q*/' % (i, i))
+    out.extend('} /*e*/' for _ in range(d))
+    return '\n'.join(out) + '\n'
+
+
 #   kind 'size' : parameter = number of declarations -> bound, doubling, per_char
 # The quick lists are thinned for the expensive families so that the quick tier stays < 60 s;
 # every list keeps pairs (d, 2d) and at least one pair (d, d+1) with d >= CONSEC_FROM.
@@ -230,6 +260,9 @@ FAMILIES = [
     ('tmpl_typedef', fam_tmpl_typedef, 'depth', THIN16, DEEP),
     ('tmpl_member', fam_tmpl_member, 'depth', THIN16, DEEP),
     ('tmpl_wide', fam_tmpl_wide, 'depth', THIN16, DEEP),
+    ('ns_commented', fam_ns_commented, 'depth', [1, 2, 3, 4, 6, 8, 9, 10], [1, 2, 3, 4, 6, 8, 9, 10, 12, 16, 20, 21]),
+    ('tmpl_qualified', fam_tmpl_qualified, 'depth', [1, 2, 3, 4, 6, 8, 9, 10], [1, 2, 3, 4, 6, 8, 9, 10, 12, 16, 20, 21]),
+    ('commented_everything', fam_commented_everything, 'depth', [1, 2, 3, 4, 6, 8], [1, 2, 3, 4, 6, 8, 9, 12, 16]),
     ('combo_ns_tmpl', fam_combo, 'depth', [1, 2, 3, 4, 6, 7], list(range(1, 11)) + [12, 16, 20]),
     ('default_nest', fam_default_nest, 'depth', THIN16, DEEP),
 ]
